@@ -78,7 +78,79 @@ def run(ctx):
                        "csv_core stays in its End state (and partial-record state of the previous file leaks into the next)", rec["file"], rec["line"])
     res.append(r2)
     res.append(rule_eofonly(facts))
+    res.append(rule_fieldutf8(facts))
+    res.append(rule_clear(facts))
     return res
+
+
+def rule_clear(facts):
+    """ByteRecords keeps two parallel buffers: field bytes (`buf_len`) and field ends (`ends_len`). A record that is still being
+    decoded when the read buffer ends may own entries in either one alone (leading empty fields have ends but no bytes). Dropping
+    "everything" after the completed records have been flushed is only right when *both* lengths show nothing beyond the last completed
+    record: each length that is reset to zero must have been compared on the way."""
+    r = RuleResult("C17-CLEAR", "ByteRecords::clear_completed resets buf_len / ends_len to zero only behind a comparison that reads that same length", floor=2)
+    rec = facts.fn("glaredb_ext_csv::decoder::ByteRecords::clear_completed")
+    if rec is None:
+        r.missing_anchor("glaredb_ext_csv::decoder::ByteRecords::clear_completed")
+        return r
+    fn = Fn(rec)
+    r.functions.add(fn.id)
+    cmp_reads = {}
+    for b, i, pl, rv, ln in fn.assigns():
+        if rv[0] == "bin" and rv[1] in ("Eq", "Ne", "Lt", "Le", "Gt", "Ge"):
+            for x in (rv[2], rv[3]):
+                if x[0] in ("c", "m"):
+                    o = fn.origin(x, at=b)
+                    for p_ in (o[2] if len(o) > 2 and isinstance(o[2], list) else []):
+                        if isinstance(p_, list) and p_[0] == "f":
+                            cmp_reads.setdefault(p_[1], []).append(b)
+                    # the operand may be arithmetic over the field
+                    if o[0] == "rv":
+                        for q in str(o[1]).split("'"):
+                            if q in ("buf_len", "ends_len"):
+                                cmp_reads.setdefault(q, []).append(b)
+    for b, i, pl, rv, ln in fn.assigns():
+        flds = [p_[1] for p_ in pl[1] if isinstance(p_, list) and p_[0] == "f"]
+        if not flds or flds[-1] not in ("buf_len", "ends_len"):
+            continue
+        c = op_const(rv[1]) if rv[0] == "use" else None
+        if not (c and c.get("k") == "int" and c.get("v") == 0):
+            continue
+        ok = any(fn.dominates(g, b) and g != b for g in cmp_reads.get(flds[-1], []))
+        r.inst({"fn": fn.id, "line": ln, "reset": flds[-1], "compared_before": ok}, ok)
+        if not ok:
+            r.violate(fn.id, f"reset-without-check:{flds[-1]}", f"`{flds[-1]}` is reset to 0 at line {ln} without having been compared: the entries a partially decoded record "
+                      "owns in that buffer (e.g. the ends of leading empty fields) are dropped when the read buffer happens to end there", rec["file"], ln)
+    return r
+
+
+def rule_fieldutf8(facts):
+    """Read-buffer boundaries fall anywhere, also inside a multi-byte character; only a *decoded field* is a complete byte string.
+    So (1) bytes become `&str` in the CSV reader only through the checked `from_utf8` on a decoded field, never `from_utf8_unchecked`;
+    (2) no UTF-8 validation is applied to the raw read buffer (it would reject valid files depending on where a chunk ends)."""
+    r = RuleResult("C17-UTF8", "CSV fields become text through the checked from_utf8 on decoded fields only: no from_utf8_unchecked, no validation of raw read chunks", floor=2)
+    for rec in facts.all_fns(["glaredb_ext_csv"], contains="from_utf8"):
+        if "::tests::" in rec["id"]:
+            continue
+        fn = Fn(rec)
+        for c in fn.calls():
+            last = c.name.rsplit("::", 1)[-1]
+            if not last.startswith("from_utf8"):
+                continue
+            r.functions.add(fn.id)
+            r.call_sites += 1
+            o = fn.origin(c.args[0], at=c.bb, through_calls=("::deref", "::index", "::as_slice", "::as_ref", "::unwrap", "::field", "::branch")) if c.args else None
+            proj = o[2] if o and len(o) > 2 and isinstance(o[2], list) else []
+            raw_buf = any(isinstance(p_, list) and p_[0] == "f" and "read_buf" in p_[1] for p_ in proj)
+            unchecked = "unchecked" in last
+            ok = not unchecked and not raw_buf
+            r.inst({"fn": fn.id, "line": c.line, "call": last, "on_raw_read_buffer": raw_buf}, ok)
+            if unchecked:
+                r.violate(fn.id, "from_utf8_unchecked", f"`{last}` at line {c.line}: file bytes become a &str without validation", rec["file"], c.line)
+            elif raw_buf:
+                r.violate(fn.id, "utf8-check-on-raw-chunk", f"`{last}` at line {c.line} validates the raw read buffer: a chunk may end (and the next one start) inside a multi-byte "
+                          "character, so a valid file is rejected or not depending on where the read boundary falls", rec["file"], c.line)
+    return r
 
 
 def _is_empty_input(fn, op, at):
